@@ -199,6 +199,23 @@ def class_memos(ctx: Context, cls: ClassInfo) -> Tuple[List[Memo], Dict[str, Met
             todo.extend(mf.self_calls)
         return out
 
+    def covered_by_callers(name: str, attr: str, seen: Set[str]) -> bool:
+        if name in seen:
+            return False
+        seen = seen | {name}
+        callers = [m for m, f in facts.items() if name in f.self_calls and m != name]
+        if not callers:
+            return False
+        for c in callers:
+            if c in ("__init__", "__post_init__", "__setstate__"):
+                continue
+            if attr in closure(c, "resets"):
+                continue
+            if c.startswith("_") and not c.startswith("__") and covered_by_callers(c, attr, seen):
+                continue
+            return False
+        return True
+
     memos: List[Memo] = []
     all_memo_attrs = set()
     for name, mf in facts.items():
@@ -226,6 +243,10 @@ def class_memos(ctx: Context, cls: ClassInfo) -> Tuple[List[Memo], Dict[str, Met
                     continue
                 resets = closure(n2, "resets")
                 if a in resets:
+                    continue
+                # a private helper is covered when every method that calls it resets the memo (the reset is
+                # the entry point's duty: `_load_sections(...)` then `_invalidate_cache()` in the caller)
+                if n2.startswith("_") and not n2.startswith("__") and covered_by_callers(n2, a, set()):
                     continue
                 # a method that itself (re)fills the memo from the new state is also fine
                 if a in f2.fills and a not in f2.tests:
